@@ -33,7 +33,7 @@ class HarnessError(Exception):
 
 
 class FD:
-    __slots__ = ("fd", "pid", "path", "pos", "readable", "writable", "closed", "kind")
+    __slots__ = ("fd", "pid", "path", "pos", "readable", "writable", "closed", "kind", "real")
 
     def __init__(self, fd, pid, path, readable, writable, kind="file"):
         self.fd = fd
@@ -43,6 +43,7 @@ class FD:
         self.readable = readable
         self.writable = writable
         self.closed = False
+        self.real = None  # a lock descriptor keeps the REAL lock file open: its inode is the identity of the lock
         self.kind = kind  # 'file' | 'lock'
 
 
@@ -102,6 +103,8 @@ class Kernel:
         self.finished = False
         self.max_events = 0
         self._names: dict[str, str] = {}
+        self.lockfiles: dict[str, int] = {}   # lock-file name -> inode
+        self.next_ino = 0
         self._normcache: dict[str, str] = {}
         self.observers: list = []  # callables(kernel, event) run after each event
 
@@ -124,7 +127,8 @@ class Kernel:
         depend on the sandbox directory or the cwd."""
         n = self._names.get(path)
         if n is None:
-            n = self._names[path] = f"{'L' if path.endswith('.lock') else 'F'}{len(self._names)}:{os.path.basename(path)[-12:] if not path.endswith('.lock') else ''}"
+            is_lock = ".lock" in os.path.basename(path)
+            n = self._names[path] = f"{'L' if is_lock else 'F'}{len(self._names)}:{'' if is_lock else os.path.basename(path)[-12:]}"
         return n
 
     def _event(self, pid, op, obj, res=None):
@@ -186,9 +190,24 @@ class Kernel:
         for fd in list(self.fdtab.values()):
             if fd.pid == pid:
                 fd.closed = True
+                self._close_real(fd)
                 del self.fdtab[fd.fd]
         self.waiting_on.pop(pid, None)
         self._event(pid, "killed", "")
+
+    @staticmethod
+    def _close_real(fd):
+        if fd.real is not None:
+            try:
+                fd.real.close()
+            except OSError:
+                pass
+            fd.real = None
+
+    def close_all_real(self):
+        """End of a run: nothing of the simulated world keeps a real descriptor."""
+        for fd in list(self.fdtab.values()):
+            self._close_real(fd)
 
     def _die(self, pid):
         self.kill(pid)
@@ -328,6 +347,7 @@ class Kernel:
         if flt is not None and flt.kind == "kill":
             self._die(pid)
         fd.closed = True
+        self._close_real(fd)
         self.fdtab.pop(fd.fd, None)
         self.pending_enospc.discard(fd.fd)
         if fd.kind == "lock":
@@ -340,16 +360,19 @@ class Kernel:
         pid, flt = self._enter("stat", p)
         if flt is not None and flt.kind == "kill":
             self._die(pid)
-        r = p in self.files
+        r = p in self.files or p in self.lockfiles
         self._event(pid, "stat", p, r)
         return r
 
     def sys_unlink(self, path):
         p = self.norm(path)
         pid, _ = self._enter("unlink", p)
-        if p not in self.files:
+        if p in self.lockfiles:
+            del self.lockfiles[p]      # descriptors that are open on the old inode keep working (and keep their locks)
+        elif p in self.files:
+            del self.files[p]
+        else:
             raise FileNotFoundError(errno.ENOENT, "No such file or directory", p)
-        del self.files[p]
         self._event(pid, "unlink", p)
 
     # ------------------------------------------------------------------ locks
@@ -358,11 +381,22 @@ class Kernel:
         pid, flt = self._enter("lk_open", p)
         if flt is not None and flt.kind == "kill":
             self._die(pid)
-        fd = FD(self.next_fd, pid, p, True, True, kind="lock")
+        # A POSIX lock belongs to the INODE, not to the name: the lock table is keyed by (name, inode).  A lock file that
+        # is unlinked while somebody still has it open, and then re-created, is a different lock - as on a real OS.
+        # Lock files live in the simulated namespace (molli.config.SHARED_DIR is a SimPath during a run), opening creates
+        # the file like fasteners' open(path, 'a+') does.
+        ino = self.lockfiles.get(p)
+        if ino is None:
+            self.next_ino += 1
+            ino = self.lockfiles[p] = self.next_ino
+        key = f"{p}#{ino}"
+        real = None
+        fd = FD(self.next_fd, pid, key, True, True, kind="lock")
+        fd.real = real
         self.next_fd += 1
         self.fdtab[fd.fd] = fd
-        self.locks.setdefault(p, {})
-        self._event(pid, "lk_open", p)
+        self.locks.setdefault(key, {})
+        self._event(pid, "lk_open", key)
         return fd
 
     def lock_try(self, fd: FD, exclusive: bool) -> bool:
@@ -417,7 +451,9 @@ class Kernel:
         self.atexit.setdefault(self.cur_pid, []).append((fn, a, kw))
 
     def run_atexit(self, pid: int):
-        for fn, a, kw in reversed(self.atexit.pop(pid, [])):
+        from . import env
+
+        for fn, a, kw in list(reversed(self.atexit.pop(pid, []))) + list(reversed(env.IMPORT_ATEXIT_HOOKS)):
             try:
                 fn(*a, **kw)
             except SimCrash:
@@ -432,6 +468,7 @@ class Kernel:
         for fd in list(self.fdtab.values()):
             if fd.pid == pid:
                 fd.closed = True
+                self._close_real(fd)
                 del self.fdtab[fd.fd]
                 self.counters["fd_open_at_exit"] += 1
 
@@ -442,7 +479,7 @@ class Kernel:
                 if f.pid == pid and (p is None or f.path == p) and (kind is None or f.kind == kind)]
 
     def locks_of(self, pid: int):
-        return sorted((lk, m) for lk, h in self.locks.items() for q, m in h.items() if q == pid)
+        return sorted(((lk, m) for lk, h in self.locks.items() for q, m in h.items() if q == pid), key=lambda t: self.canon(t[0]))
 
     def image(self, path) -> bytes:
         return bytes(self.files.get(self.norm(path), b""))
